@@ -35,7 +35,8 @@ LEVEL_TEXT = ("Lean theorems over functools.lru_cache as a list machine (hit: mo
               "CURRENT options, store, evict beyond maxsize; exceptions are not stored) and over the eight-cache system with the "
               "Options singleton and the set_lsb0 method tables. For ALL histories of calls, cache_clears and option assignments and "
               "every capacity: never more than maxsize entries, no duplicate keys; every call of a function that reads no option "
-              "returns the pure result (seven of the eight caches; up to value-equality where Dtype._create keys collide, 2 == 2.0 == True); "
+              "returns the pure result (seven of the eight caches; for the Dtype caches exactly - typed keys, a generated obligation - and up to "
+              "value-equality for == keys, with a decided witness that then the first caller's scale object is served); "
               "for str_to_bitstore, which reads lsb0 and mxfp_overflow, and for the whole system as configured in the working tree "
               "(setters clear the string cache - re-evaluated on every run as a generated obligation; tables and capacities re-extracted): "
               "every observation of every history is pure (head_all_pure), results are a function of (current options, arguments) "
@@ -51,7 +52,8 @@ LEVEL_NOTE = ("Trusted: Lean kernel (+propext, Classical.choice, Quot.sound); fu
               "exceptions not stored - and did so on the tree before a428504; with invalidating setters every prediction is 'pure'); which "
               "option each cached computation reads is transcribed by hand and checked on the generated strings and by re-evaluating the "
               "memoised helpers under all option settings; cached results are values in the model (aliasing is C04, but mutation of objects "
-              "derived from cached strings is exercised here too). Dtype scale collisions are compared by value on magnitudes below 2**53.")
+              "derived from cached strings is exercised here too). Everything observed about a Dtype is type-exact (scale, length, results of "
+              "build/parse/read/get), in the token form and the explicit (name, length, scale) form.")
 TECHNIQUE = "Lean 4 proof (cache invariants by induction over call/option histories) + history correspondence against cold caches and fresh processes"
 
 NOT_YET_PROVED = []
@@ -202,12 +204,25 @@ def canon(v):
     return "?" + type(v).__name__
 
 
+def canon_t(v):
+    """Type-exact canonical form (used for everything observed about a Dtype: since e6496ea the Dtype caches are
+    typed, so Dtype('uint', 8, scale=2.0) must come back with a float scale and float results whatever was created
+    before): `<type name>:<repr>`."""
+    if isinstance(v, Bits):
+        return type(v).__name__ + ":" + wire(v)
+    if isinstance(v, float):
+        return "float:" + ("nan" if math.isnan(v) else v.hex())
+    if isinstance(v, (list, tuple)):
+        return type(v).__name__ + ":[" + ",".join(canon_t(x) for x in v) + "]"
+    if isinstance(v, (bytes, bytearray)):
+        return type(v).__name__ + ":" + bytes(v).hex()
+    if v is None or isinstance(v, (bool, int, str)):
+        return type(v).__name__ + ":" + repr(v)
+    return canon(v)
+
+
 def canon_scale(s):
-    if s is None:
-        return "None"
-    if isinstance(s, str):
-        return "s" + s
-    return canon(s)
+    return canon_t(s)
 
 
 _SAMPLES = (5, -3, 1.5, 1e6, "1", b"a", True)
@@ -219,7 +234,7 @@ def fnsig(f, depth=0):
     if f is None or depth > 4:
         return "None"
     if isinstance(f, functools.partial):
-        return "partial(%s;%s)" % (fnsig(f.func, depth + 1), ",".join("%s=%s" % (k, canon(v)) for k, v in sorted(f.keywords.items())))
+        return "partial(%s;%s)" % (fnsig(f.func, depth + 1), ",".join("%s=%s" % (k, canon_t(v)) for k, v in sorted(f.keywords.items())))
     name = getattr(f, "__qualname__", type(f).__name__)
     inner = []
     for cell in (getattr(f, "__closure__", None) or ()):
@@ -235,16 +250,14 @@ def fnsig(f, depth=0):
 
 
 def canon_dtype(d, behaviour=False):
-    head = "D(%s,%s,%s,%s,%d,%d,%d)" % (d.name, canon(d.length), canon(d.bitlength), canon_scale(d.scale),
+    head = "D(%s,%s,%s,%s,%d,%d,%d)" % (d.name, canon_t(d.length), canon_t(d.bitlength), canon_scale(d.scale),
                                         int(bool(d.variable_length)), int(bool(d.is_signed)), d.bits_per_item)
     if behaviour:
         head += "[%s|%s|%s]" % (fnsig(d.set_fn), fnsig(d.get_fn), fnsig(d.read_fn))
     if not behaviour:
         return head
-    if d.scale is not None and d.return_type not in (int, float, bool):
-        return head          # a scale on a str/bytes/Bits dtype multiplies sequences: int and float scales differ by TYPE there
     outs = []
-    for sv in _SAMPLES:                       # small values: exact in float arithmetic whatever the type of the scale
+    for sv in _SAMPLES:
         if isinstance(sv, str) and d.name == "bits":
             continue                          # Bits('<str>') would be one more str_to_bitstore call
         try:
@@ -252,13 +265,21 @@ def canon_dtype(d, behaviour=False):
         except Exception:
             outs.append("E")
     n = d.bitlength
-    # small magnitudes only: products with an int scale and with the numerically equal float scale are then the same
-    # number (for values beyond 2**53 they differ by rounding: the scale OBJECT of the first caller is served)
     pat = "1011001110001111"
-    src = pat[:n] if n is not None and n <= 16 else ("0" * (n - 16) + pat if n is not None and n <= 160 else "0000" + pat)
-    for probe in (src, "00100"):
+    probes = []
+    if isinstance(n, int) and not isinstance(n, bool) and 0 < n <= 160:
+        probes.append("0" * max(0, n - 16) + pat[:n] if n > 16 else pat[:n])      # small magnitude
+        probes.append((pat * 10)[:n])                                             # beyond 2**53 for long dtypes
+    else:
+        probes.append("0000" + pat)
+    probes.append("00100")
+    for probe in probes:
         try:
-            outs.append(canon(d.parse(Bits(bin=probe))))
+            b = Bits(bin=probe)
+            outs.append(canon_t(d.parse(b)))
+            r = d.read_fn(b, 0)
+            outs.append(canon_t(r))
+            outs.append(canon_t(d.get_fn(b)))
         except Exception:
             outs.append("E")
     return head + "/" + ";".join(outs)
@@ -297,6 +318,19 @@ def _s_call(cls_field, text):
     if route == "a":
         r = Bits(bin="1") + text
         return C(bin=r.bin[1:])
+    # the BitStream that pack() returns, itself (single `bits` token: value a str, a keyword str, a Bits, with length)
+    if route == "pk":
+        return bitstring.pack("bits", text)
+    if route == "pkv":
+        return bitstring.pack("bits=v", v=text)
+    if route == "pkb":
+        return bitstring.pack("bits", Bits(text))
+    if route == "pkn":
+        x = Bits(text)
+        return bitstring.pack("bits:%d" % len(x), x)
+    if route == "pkl":
+        x = BitArray(text)
+        return bitstring.pack("bits:n=v", n=len(x), v=x)
     # derived from an EMPTY object of the class (fast paths that could hand out the cached store)
     if route == "eadd":
         return C() + text
@@ -1034,7 +1068,7 @@ def gen_dtype(rng, stress=False, focus=None):
         name = rng.choice(["uint", "int", "bits", "bin", "pad"])
         n = rng.randint(1, 420)
         if focus == "create":
-            tok, length = name, n
+            tok, length = name, (float(n) if rng.random() < 0.05 else n)
         else:
             tok, length = rng.choice(["%s:%d", "%s%d"]) % (name, n), None
         if rng.random() < 0.7:
@@ -1050,7 +1084,7 @@ def gen_dtype(rng, stress=False, focus=None):
             n = 3 * rng.randint(1, 100 if stress else 20)
         form = rng.random()
         if form < 0.4:
-            tok, length = name, n
+            tok, length = name, (float(n) if rng.random() < 0.08 else n)
         elif form < 0.7:
             tok, length = "%s:%d" % (name, n), None
         else:
@@ -1117,7 +1151,7 @@ def gen_battery(rng, obj_steps, attrs=None):
 
 
 S_ROUTES = ["", "", "", "!f", "!p", "!a"]
-E_ROUTES_ANY = ["!eadd", "!eradd", "!ejoin"]
+E_ROUTES_ANY = ["!eadd", "!eradd", "!ejoin", "!pk", "!pkv", "!pkb", "!pkn", "!pkl"]
 E_ROUTES_MUT = ["!eprepend", "!eappend", "!eiadd", "!einsert", "!esetslice", "!eoverwrite"]
 
 
@@ -1405,6 +1439,19 @@ def targeted(rng, tier):
                 out.append(_join(segs[i:i + 11]))
         else:
             out.append(_join(segs))
+    # 4b. the explicit (name, length, scale) form with value-equal, differently typed lengths and scales, both orders
+    segs, n = [], 40
+    for name in ("uint", "int", "bits", "hex"):
+        for sc in (None, ["i", 2], ["f", "0x1.0000000000000p+1"], ["b", True]):
+            for (la, lb) in ((1, 1.0), (1.0, 1)):
+                n += 4
+                a, b = (n if la == 1 else float(n)), (n if lb == 1 else float(n))
+                segs.append(["D|-|" + J([name, a, sc, "dtype"]), "D|-|" + J([name, b, sc, "dtype"]), "D|-|" + J([name, a, sc, "dtype"])])
+    out.append(_join(segs))
+    for tok, length in (("uint", 8), ("uint8", None), ("float", 32), ("int:12", None), ("e4m3mxfp", None)):
+        for sa, sb in ((["i", 2], ["f", "0x1.0000000000000p+1"]), (["f", "0x1.0000000000000p+1"], ["i", 2]),
+                       (["b", True], ["f", "0x1.0000000000000p+0"]), (["i", 1], ["b", True]), (["f", "0x1.0000000000000p+0"], ["i", 1])):
+            H(["D|-|" + J([tok, length, sa, "dtype"]), "D|-|" + J([tok, length, sb, "dtype"])])
     # 5. method dispatch after every sequence of lsb0 assignments of length <= 3
     attrs = battery_attrs()
     for seq in [[], [1], [0], [1, 0], [1, 1], [0, 1], [1, 0, 1], [1, 0, 0], [0, 1, 0], [1, 1, 0]]:
